@@ -45,11 +45,15 @@ Definition abs_eqb (d : disc) (a b : list Z) : bool :=
   | _ => zlist_eqb a b
   end.
 
-(* what a fresh container of the family must hold after decoding a document whose array is [src]: the same
-   contents - for the bounded queue, whose capacity may be smaller than the document, the LAST cap values in order *)
+(* what a fresh container of the family must hold after decoding a document whose array is [src] (its own output, or a
+   document written by someone else): the same contents - for the bounded queue, whose capacity may be smaller than
+   the document, the LAST cap values in order; for a set, whose document may repeat elements, each element once, in
+   the order of first occurrence (compared as a bag / sorted for the unordered / tree set) *)
+Definition dedup_first (l : list Z) : list Z := fold_left (fun acc x => if memZ x acc then acc else acc ++ [x]) l [].
 Definition restored_ref (d : disc) (src : list Z) : list Z :=
   match d with
   | DRing cap => skipn (length src - cap) src
+  | DSetHash | DSetLinked | DSetTree => dedup_first src
   | _ => src
   end.
 
